@@ -231,19 +231,83 @@ func genSQL(repo, out string) {
 				name = strings.TrimPrefix(src(fd.Recv.List[0].Type), "*") + "." + name
 			}
 			name = filepath.Base(filepath.Dir(rel)) + "." + name
+			// a validator call counts as such only where it runs on EVERY path: in a top-level statement of the
+			// body (its expression, assignment, `if` header or `return` value — or a top-level loop over the
+			// things to check) that no earlier `return` can skip; anywhere else it is marked conditional
 			seen := map[string]bool{}
-			ast.Inspect(fd.Body, func(n ast.Node) bool {
-				if c, ok := n.(*ast.CallExpr); ok {
-					fnn := src(c.Fun)
-					for _, v := range []string{"CheckUserInput", "ValidateFix", "wstrings.Safe"} {
-						if (fnn == v || strings.HasSuffix(fnn, "."+v)) && !seen[v] {
-							seen[v] = true
-							validators = append(validators, [2]string{name, v})
+			returnedBefore := false
+			record := func(n ast.Node, dominating bool) {
+				ast.Inspect(n, func(n ast.Node) bool {
+					if c, ok := n.(*ast.CallExpr); ok {
+						fnn := src(c.Fun)
+						for _, v := range []string{"CheckUserInput", "ValidateFix", "wstrings.Safe"} {
+							if (fnn == v || strings.HasSuffix(fnn, "."+v)) && !seen[v] {
+								seen[v] = true
+								if dominating && !returnedBefore {
+									validators = append(validators, [2]string{name, v})
+								} else {
+									validators = append(validators, [2]string{name, v + " ?conditional"})
+								}
+							}
 						}
 					}
+					return true
+				})
+			}
+			hasReturn := func(n ast.Node) bool {
+				found := false
+				ast.Inspect(n, func(n ast.Node) bool {
+					if _, ok := n.(*ast.FuncLit); ok {
+						return false
+					}
+					// a SUCCESS return (`return nil`): the caller goes on with the unchecked value. Error returns and
+					// the bare returns of HTTP handlers (after http.Error) end the path before any SQL is issued
+					if r, ok := n.(*ast.ReturnStmt); ok && len(r.Results) > 0 {
+						allNil := true
+						for _, x := range r.Results {
+							if id, ok := x.(*ast.Ident); !ok || id.Name != "nil" {
+								allNil = false
+							}
+						}
+						if allNil {
+							found = true
+						}
+					}
+					return true
+				})
+				return found
+			}
+			for _, st := range fd.Body.List {
+				switch x := st.(type) {
+				case *ast.IfStmt:
+					if x.Init != nil {
+						record(x.Init, true)
+					}
+					record(x.Cond, true)
+					record(x.Body, false)
+					if x.Else != nil {
+						record(x.Else, false)
+					}
+				case *ast.RangeStmt:
+					record(x.X, true)
+					record(x.Body, true) // a loop over the elements to check; an early exit inside it is a rejection
+				case *ast.ForStmt:
+					record(x.Body, true)
+				default:
+					record(st, true)
 				}
-				return true
-			})
+				// a return in a LATER position cannot skip this statement; one here can skip the following ones,
+				// unless it is the rejection of the validator itself (`if err := V(..); err != nil { return .. }`)
+				if ifs, ok := st.(*ast.IfStmt); ok && ifs.Init != nil && strings.Contains(src(ifs.Cond), "err != nil") {
+					continue
+				}
+				if _, ok := st.(*ast.RangeStmt); ok {
+					continue
+				}
+				if hasReturn(st) {
+					returnedBefore = true
+				}
+			}
 		}
 	}
 	var sb strings.Builder
